@@ -2,7 +2,7 @@ use crate::VueJsxTransformVisitor;
 use indexmap::{IndexMap, IndexSet};
 use std::borrow::Cow;
 use swc_core::{
-    common::{comments::Comments, EqIgnoreSpan, Span, Spanned, DUMMY_SP},
+    common::{comments::Comments, EqIgnoreSpan, Span, Spanned, SyntaxContext, DUMMY_SP},
     ecma::{
         ast::*,
         atoms::{atom, Atom},
@@ -359,6 +359,26 @@ where
         }
     }
 
+    /// Runs `op` while the referenced type is marked as being resolved;
+    /// a reference to a type that is already being resolved is circular and reported.
+    fn resolve_reference<T>(
+        &self,
+        key: &(Atom, SyntaxContext),
+        span: Span,
+        op: impl FnOnce() -> T,
+    ) -> Option<T> {
+        if self.resolving_types.borrow().contains(key) {
+            HANDLER.with(|handler| {
+                handler.span_err(span, "Circular type reference can't be resolved.");
+            });
+            return None;
+        }
+        self.resolving_types.borrow_mut().push(key.clone());
+        let result = op();
+        self.resolving_types.borrow_mut().pop();
+        Some(result)
+    }
+
     fn resolve_type_elements(&self, ty: &TsType, props: &mut Vec<RefinedTsTypeElement>) {
         match ty {
             TsType::TsTypeLit(TsTypeLit { members, .. }) => {
@@ -394,7 +414,9 @@ where
             }) => {
                 let key = (ident.sym.clone(), ident.ctxt);
                 if let Some(aliased) = self.type_aliases.get(&key) {
-                    self.resolve_type_elements(aliased, props);
+                    self.resolve_reference(&key, *span, || {
+                        self.resolve_type_elements(aliased, props)
+                    });
                 } else if let Some(TsInterfaceDecl {
                     extends,
                     body: TsInterfaceBody { body, .. },
@@ -416,19 +438,21 @@ where
                         }
                         _ => None,
                     }));
-                    extends
-                        .iter()
-                        .filter_map(|parent| parent.expr.as_ident())
-                        .for_each(|ident| {
-                            self.resolve_type_elements(
-                                &TsType::TsTypeRef(TsTypeRef {
-                                    type_name: TsEntityName::Ident(ident.clone()),
-                                    type_params: None,
-                                    span: DUMMY_SP,
-                                }),
-                                props,
-                            )
-                        });
+                    self.resolve_reference(&key, *span, || {
+                        extends
+                            .iter()
+                            .filter_map(|parent| parent.expr.as_ident())
+                            .for_each(|ident| {
+                                self.resolve_type_elements(
+                                    &TsType::TsTypeRef(TsTypeRef {
+                                        type_name: TsEntityName::Ident(ident.clone()),
+                                        type_params: None,
+                                        span: ident.span,
+                                    }),
+                                    props,
+                                )
+                            })
+                    });
                 } else if ident.ctxt.has_mark(self.unresolved_mark) {
                     match &*ident.sym {
                         "Partial" => {
@@ -613,8 +637,12 @@ where
                 type_name: TsEntityName::Ident(ident),
                 ..
             }) => {
-                if let Some(aliased) = self.type_aliases.get(&(ident.sym.clone(), ident.ctxt)) {
-                    self.resolve_string_or_union_strings(aliased)
+                let key = (ident.sym.clone(), ident.ctxt);
+                if let Some(aliased) = self.type_aliases.get(&key) {
+                    self.resolve_reference(&key, ty.span(), || {
+                        self.resolve_string_or_union_strings(aliased)
+                    })
+                    .unwrap_or_default()
                 } else if ident.ctxt.has_mark(self.unresolved_mark) {
                     HANDLER.with(|handler| {
                         handler.span_err(
@@ -647,7 +675,10 @@ where
             }) => {
                 let key = (ident.sym.clone(), ident.ctxt);
                 if let Some(aliased) = self.type_aliases.get(&key) {
-                    self.resolve_indexed_access(aliased, index)
+                    self.resolve_reference(&key, obj.span(), || {
+                        self.resolve_indexed_access(aliased, index)
+                    })
+                    .flatten()
                 } else if let Some(interface) = self.interfaces.get(&key) {
                     let mut properties = match index {
                         TsType::TsKeywordType(TsKeywordType {
@@ -1005,7 +1036,12 @@ where
             }) => {
                 let key = (ident.sym.clone(), ident.ctxt);
                 if let Some(aliased) = self.type_aliases.get(&key) {
-                    runtime_types.extend(self.infer_runtime_type(aliased));
+                    runtime_types.extend(
+                        self.resolve_reference(&key, ty.span(), || {
+                            self.infer_runtime_type(aliased)
+                        })
+                        .unwrap_or_default(),
+                    );
                 } else if let Some(TsInterfaceDecl {
                     body: TsInterfaceBody { body, .. },
                     ..
